@@ -45,6 +45,7 @@ func HC05Packer() {
 	var arrival [40]int64
 	nw := 0
 	now := t0
+	refLast := t0 / 64000 * 64000
 	seq := base
 	for st := 0; st < steps; st++ {
 		gap := 2 * vr.Concretize(vr.NondetInt(0, 1))
@@ -59,15 +60,32 @@ func HC05Packer() {
 		// arrival-time steps are taken from a table of boundary values (rounding to 250 us units, the
 		// small/large delta border at 255 units, the int16 limits, negative deltas); per path they are
 		// concrete, so the 64-bit divide/multiply chain of the packer folds to constants.
-		table := [10]int64{0, 124, 125, 63624, 63875, 63876, 64000, 8191874, -126, -8191874}
+		table := [12]int64{0, 125, 63875, 64000, -126, 8200000, 124, 8191874, -8191874, 63624, 63876, 12000000}
 		d := table[vr.Concretize(vr.NondetInt(0, vr.Param("dchoices", 10)-1))]
 		if st == 0 {
 			first := [3]int64{0, 125, 63999} // first packet: within the 64 ms reference rounding
 			d = first[vr.Concretize(vr.NondetInt(0, 2))]
 		}
 		now += d
+		// reference: the delta to the packer's running time in 250 us units, rounded to nearest
+		du := now - refLast
+		var units int64
+		if du >= 0 {
+			units = (du + 125) / 250
+		} else {
+			units = (du - 125) / 250
+		}
+		fits := units >= -32768 && units <= 32767
 		ok := fb.addReceived(seq, now)
-		vr.Assert(ok, "delta fits 16 bits: accepted")
+		vr.Assert(ok == fits, "accepted exactly when the delta fits the signed 16-bit field of the wire format")
+		if !ok {
+			vr.Cover("delta too large: refused")
+			now -= d // the packet is left for the next feedback; this history continues without it
+			nw -= gap
+			seq -= uint16(gap)
+			continue
+		}
+		refLast += units * 250
 		arrival[nw] = now
 		want[nw] = 1 // received (small or large decided by the packer)
 		nw++
